@@ -822,6 +822,8 @@ class Interp:
         return table[type(op)](a, b)
 
     def binop(self, op, a, b, node=None):
+        if isinstance(a, core.SetV) or isinstance(b, core.SetV):
+            return Opaque("set expression")
         a, b = self.force_opt(a), self.force_opt(b)
         if isinstance(a, ForallV) or isinstance(b, ForallV):
             raise Unsupported("arithmetic on quantified value")
@@ -963,6 +965,16 @@ class Interp:
         raise Unsupported("unary %s" % type(op).__name__)
 
     def compare(self, op, a, b, node=None):
+        if isinstance(a, core.SetV) and isinstance(b, core.SetV):
+            self.assumptions_log.add("set comparison <= is the subset relation on abstract sets")
+            if isinstance(op, ast.LtE):
+                return core.subset_of(a.term, b.term)
+            if isinstance(op, ast.GtE):
+                return core.subset_of(b.term, a.term)
+            raise Unsupported("comparison %s on abstract sets" % type(op).__name__)
+        return self._compare(op, a, b, node)
+
+    def _compare(self, op, a, b, node=None):
         if isinstance(op, (ast.Eq, ast.NotEq)) and (isinstance(a, OptV) or isinstance(b, OptV)) and not (isinstance(a, OptV) and isinstance(b, OptV)):
             # x == y with x optional: False when x is None (y is never None here), else the comparison of the contents
             o, other = (a, b) if isinstance(a, OptV) else (b, a)
